@@ -1,1 +1,416 @@
 //! verification hooks used by the check of property C09
+//! ("compiled programs compute what their source means").
+//!
+//! Everything in here only reads:
+//!  * `Context::verif_c09_bytecode()` — a copy of the compiled program (chunks as byte vectors,
+//!    constants, struct infos, table of foreign callables, locals table, function map) and of
+//!    the machine state (frames, stack, last result);
+//!  * `Context::verif_c09_typed_dump(code)` — the typed statements the compiler would receive
+//!    for `code`, as a canonical S-expression (computed on a clone of the context);
+//!  * canonical text forms of values, constants and run-time error kinds.
+
+use crate::resolver::CodeSource;
+use crate::typed_ast::{
+    BinaryOperator, DefineVariable, Expression, Statement, StringPart, UnaryOperator,
+};
+use crate::value::{FunctionReference, Value};
+use crate::vm::Constant;
+use crate::{Context, RuntimeErrorKind, Type};
+
+/// Copy of the parts of `Vm` that matter for the compiled fragment.
+pub struct VmParts {
+    /// (function name, code) per chunk; chunk 0 is `<main>`
+    pub chunks: Vec<(String, Vec<u8>)>,
+    pub current_chunk_index: usize,
+    pub constants: Vec<Constant>,
+    /// (key, name, field names in definition order) in index order
+    pub struct_infos: Vec<(String, String, Vec<String>)>,
+    pub n_prefixes: usize,
+    pub n_strings: usize,
+    pub n_unit_information: usize,
+    /// names of the foreign callables in index order
+    pub ffi_callables: Vec<String>,
+    pub n_ffi_call_args: usize,
+    /// (function_idx, ip, fp), outermost first
+    pub frames: Vec<(usize, usize, usize)>,
+    pub stack: Vec<Value>,
+    pub last_result: Option<Value>,
+}
+
+/// Copy of the compiler tables of `BytecodeInterpreter` plus its `Vm`.
+pub struct InterpreterParts {
+    pub vm: VmParts,
+    /// scopes → locals → identifiers (name and aliases)
+    pub locals: Vec<Vec<Vec<String>>>,
+    /// (name, is_foreign), sorted by name
+    pub functions: Vec<(String, bool)>,
+}
+
+fn hex(s: &str) -> String {
+    let mut o = String::with_capacity(2 * s.len() + 1);
+    o.push('x');
+    for b in s.as_bytes() {
+        o.push_str(&format!("{b:02x}"));
+    }
+    o
+}
+
+/// Canonical text of a run-time value: `(n <f64 bits>)` for a scalar, `(q <bits> <unit>)` for
+/// any other quantity, `(b 0|1)`, `(s x<hex utf-8>)`, `(f N|F|T name)`, `(m -)` / `(m x<hex>)`
+/// for format specifiers, `(S name (fields…) values…)`, `(L values…)`, `(d <text>)`.
+pub fn value_canon(v: &Value) -> String {
+    match v {
+        Value::Quantity(q) => {
+            let bits = q.unsafe_value().to_f64().to_bits();
+            if q.unit().is_scalar() {
+                format!("(n {bits:016x})")
+            } else {
+                format!("(q {bits:016x} {})", hex(&q.unit().to_string()))
+            }
+        }
+        Value::Boolean(b) => format!("(b {})", *b as u8),
+        Value::String(s) => format!("(s {})", hex(s)),
+        Value::DateTime(dt) => format!("(d {})", hex(&dt.to_string())),
+        Value::FunctionReference(FunctionReference::Normal(n)) => format!("(f N {n})"),
+        Value::FunctionReference(FunctionReference::Foreign(n)) => format!("(f F {n})"),
+        Value::FunctionReference(FunctionReference::TzConversion(n)) => {
+            format!("(f T {})", hex(n))
+        }
+        Value::FormatSpecifiers(None) => "(m -)".into(),
+        Value::FormatSpecifiers(Some(s)) => format!("(m {})", hex(s)),
+        Value::StructInstance(info, values) => {
+            let mut o = format!("(S {} (", info.name);
+            o.push_str(
+                &info
+                    .fields
+                    .keys()
+                    .map(|k| k.to_string())
+                    .collect::<Vec<_>>()
+                    .join(" "),
+            );
+            o.push(')');
+            for v in values {
+                o.push(' ');
+                o.push_str(&value_canon(v));
+            }
+            o.push(')');
+            o
+        }
+        Value::List(elements) => {
+            let mut o = String::from("(L");
+            for e in elements.iter() {
+                o.push(' ');
+                o.push_str(&value_canon(e));
+            }
+            o.push(')');
+            o
+        }
+    }
+}
+
+/// Canonical text of a constant (same shapes as `value_canon`; a unit constant is `(u <name>)`).
+pub fn constant_canon(c: &Constant) -> String {
+    match c {
+        Constant::Scalar(x) => format!("(n {:016x})", x.to_bits()),
+        Constant::Unit(u) => format!("(u {})", hex(&u.to_string())),
+        Constant::Boolean(b) => format!("(b {})", *b as u8),
+        Constant::String(s) => format!("(s {})", hex(s)),
+        Constant::FunctionReference(FunctionReference::Normal(n)) => format!("(f N {n})"),
+        Constant::FunctionReference(FunctionReference::Foreign(n)) => format!("(f F {n})"),
+        Constant::FunctionReference(FunctionReference::TzConversion(n)) => {
+            format!("(f T {})", hex(n))
+        }
+        Constant::FormatSpecifiers(None) => "(m -)".into(),
+        Constant::FormatSpecifiers(Some(s)) => format!("(m {})", hex(s)),
+    }
+}
+
+/// Name of the variant of a run-time error kind (payload dropped).
+pub fn error_kind_name(k: &RuntimeErrorKind) -> &'static str {
+    match k {
+        RuntimeErrorKind::DivisionByZero => "DivisionByZero",
+        RuntimeErrorKind::FactorialOfNegativeNumber => "FactorialOfNegativeNumber",
+        RuntimeErrorKind::FactorialOfNonInteger => "FactorialOfNonInteger",
+        RuntimeErrorKind::UnitRegistryError(_) => "UnitRegistryError",
+        RuntimeErrorKind::QuantityError(_) => "QuantityError",
+        RuntimeErrorKind::AssertFailed(_) => "AssertFailed",
+        RuntimeErrorKind::AssertEq2Failed(_) => "AssertEq2Failed",
+        RuntimeErrorKind::AssertEq3Failed(_) => "AssertEq3Failed",
+        RuntimeErrorKind::CouldNotLoadExchangeRates => "CouldNotLoadExchangeRates",
+        RuntimeErrorKind::UserError(_) => "UserError",
+        RuntimeErrorKind::DateParsingError(_) => "DateParsingError",
+        RuntimeErrorKind::UnknownTimezone(_) => "UnknownTimezone",
+        RuntimeErrorKind::DurationOutOfRange => "DurationOutOfRange",
+        RuntimeErrorKind::DateTimeOutOfRange => "DateTimeOutOfRange",
+        RuntimeErrorKind::DateFormattingError(_) => "DateFormattingError",
+        RuntimeErrorKind::InvalidFormatSpecifiers(_) => "InvalidFormatSpecifiers",
+        RuntimeErrorKind::InvalidTypeForFormatSpecifiers(_) => "InvalidTypeForFormatSpecifiers",
+        RuntimeErrorKind::ChemicalElementNotFound(_) => "ChemicalElementNotFound",
+        RuntimeErrorKind::EmptyList => "EmptyList",
+        RuntimeErrorKind::FileWrite(_) => "FileWrite",
+        RuntimeErrorKind::HistoryWrite(_) => "HistoryWrite",
+    }
+}
+
+fn binop_name(op: &BinaryOperator) -> &'static str {
+    match op {
+        BinaryOperator::Add => "add",
+        BinaryOperator::Sub => "sub",
+        BinaryOperator::Mul => "mul",
+        BinaryOperator::Div => "div",
+        BinaryOperator::Power => "pow",
+        BinaryOperator::ConvertTo => "conv",
+        BinaryOperator::LessThan => "lt",
+        BinaryOperator::GreaterThan => "gt",
+        BinaryOperator::LessOrEqual => "le",
+        BinaryOperator::GreaterOrEqual => "ge",
+        BinaryOperator::Equal => "eq",
+        BinaryOperator::NotEqual => "ne",
+        BinaryOperator::LogicalAnd => "and",
+        BinaryOperator::LogicalOr => "or",
+    }
+}
+
+fn dump_expr(e: &Expression, o: &mut String) {
+    match e {
+        Expression::Scalar { value, .. } => {
+            o.push_str(&format!("(num {:016x})", value.to_f64().to_bits()));
+        }
+        Expression::Identifier { name, .. } => {
+            o.push_str(&format!("(id {name})"));
+        }
+        Expression::UnitIdentifier { name, .. } => {
+            o.push_str(&format!("(unsupported unit-{name})"));
+        }
+        Expression::UnaryOperator { op, expr, .. } => {
+            match op {
+                UnaryOperator::Negate => o.push_str("(neg "),
+                UnaryOperator::LogicalNeg => o.push_str("(not "),
+                UnaryOperator::Factorial(order) => o.push_str(&format!("(fact {} ", order.get())),
+            }
+            dump_expr(expr, o);
+            o.push(')');
+        }
+        Expression::BinaryOperator { op, lhs, rhs, .. } => {
+            o.push_str(&format!("(bin {} ", binop_name(op)));
+            dump_expr(lhs, o);
+            o.push(' ');
+            dump_expr(rhs, o);
+            o.push(')');
+        }
+        Expression::BinaryOperatorForDate { .. } => o.push_str("(unsupported datetime-op)"),
+        Expression::FunctionCall { name, args, .. } => {
+            o.push_str(&format!("(call {name}"));
+            for a in args {
+                o.push(' ');
+                dump_expr(a, o);
+            }
+            o.push(')');
+        }
+        Expression::CallableCall { callable, args, .. } => {
+            o.push_str("(callc ");
+            dump_expr(callable, o);
+            for a in args {
+                o.push(' ');
+                dump_expr(a, o);
+            }
+            o.push(')');
+        }
+        Expression::Boolean(_, b) => o.push_str(&format!("(bool {})", *b as u8)),
+        Expression::Condition {
+            condition,
+            then_expr,
+            else_expr,
+            ..
+        } => {
+            o.push_str("(if ");
+            dump_expr(condition, o);
+            o.push(' ');
+            dump_expr(then_expr, o);
+            o.push(' ');
+            dump_expr(else_expr, o);
+            o.push(')');
+        }
+        Expression::String(_, parts) => {
+            o.push_str("(str");
+            for p in parts {
+                o.push(' ');
+                match p {
+                    StringPart::Fixed(s) => o.push_str(&format!("(fixed {})", hex(s))),
+                    StringPart::Interpolation {
+                        expr,
+                        format_specifiers,
+                        ..
+                    } => {
+                        match format_specifiers {
+                            None => o.push_str("(interp - "),
+                            Some(s) => o.push_str(&format!("(interp {} ", hex(s))),
+                        }
+                        dump_expr(expr, o);
+                        o.push(')');
+                    }
+                }
+            }
+            o.push(')');
+        }
+        Expression::InstantiateStruct {
+            fields,
+            struct_info,
+            ..
+        } => {
+            o.push_str(&format!("(mk ({}", struct_info.name));
+            for k in struct_info.fields.keys() {
+                o.push(' ');
+                o.push_str(k);
+            }
+            o.push(')');
+            for (n, e) in fields {
+                o.push_str(&format!(" ({n} "));
+                dump_expr(e, o);
+                o.push(')');
+            }
+            o.push(')');
+        }
+        Expression::AccessField {
+            expr,
+            field_name,
+            struct_type,
+            ..
+        } => {
+            o.push_str("(fld ");
+            dump_expr(expr, o);
+            o.push_str(&format!(" {field_name} "));
+            match struct_type.to_concrete_type() {
+                Type::Struct(info) => {
+                    o.push_str(&format!("({}", info.name));
+                    for k in info.fields.keys() {
+                        o.push(' ');
+                        o.push_str(k);
+                    }
+                    o.push(')');
+                }
+                _ => o.push_str("(unsupported non-struct)"),
+            }
+            o.push(')');
+        }
+        Expression::List { elements, .. } => {
+            o.push_str("(list");
+            for e in elements {
+                o.push(' ');
+                dump_expr(e, o);
+            }
+            o.push(')');
+        }
+        Expression::TypedHole(..) => o.push_str("(unsupported typed-hole)"),
+    }
+}
+
+fn dump_define_variable(d: &DefineVariable, o: &mut String) {
+    o.push_str("(let (");
+    let names: Vec<&str> = crate::decorator::name_and_aliases(d.name, &d.decorators)
+        .map(|(n, _)| n)
+        .collect();
+    o.push_str(&names.join(" "));
+    o.push_str(") ");
+    dump_expr(&d.expr, o);
+    o.push(')');
+}
+
+/// Canonical S-expressions (one per statement, separated by one blank) of typed statements.
+pub fn dump_statements(stmts: &[Statement]) -> String {
+    let mut o = String::new();
+    for (i, s) in stmts.iter().enumerate() {
+        if i > 0 {
+            o.push(' ');
+        }
+        match s {
+            Statement::Expression(e) => {
+                o.push_str("(expr ");
+                dump_expr(e, &mut o);
+                o.push(')');
+            }
+            Statement::DefineVariable(d) => dump_define_variable(d, &mut o),
+            Statement::DefineFunction {
+                function_name,
+                parameters,
+                body: Some(body),
+                local_variables,
+                ..
+            } => {
+                o.push_str(&format!("(fn {function_name} ("));
+                o.push_str(
+                    &parameters
+                        .iter()
+                        .map(|p| p.1.to_string())
+                        .collect::<Vec<_>>()
+                        .join(" "),
+                );
+                o.push_str(") (");
+                for (k, l) in local_variables.iter().enumerate() {
+                    if k > 0 {
+                        o.push(' ');
+                    }
+                    dump_define_variable(l, &mut o);
+                }
+                o.push_str(") ");
+                dump_expr(body, &mut o);
+                o.push(')');
+            }
+            Statement::DefineFunction {
+                function_name,
+                parameters,
+                body: None,
+                ..
+            } => {
+                o.push_str(&format!("(ffn {function_name} {})", parameters.len()));
+            }
+            Statement::DefineDimension(..) => o.push_str("(dim)"),
+            Statement::DefineBaseUnit { .. } => o.push_str("(unsupported base-unit)"),
+            Statement::DefineDerivedUnit { .. } => o.push_str("(unsupported derived-unit)"),
+            Statement::ProcedureCall { kind, args, .. } => {
+                o.push_str(&format!("(proc {}", kind.name()));
+                for a in args {
+                    o.push(' ');
+                    dump_expr(a, &mut o);
+                }
+                o.push(')');
+            }
+            Statement::DefineStruct(info) => {
+                o.push_str(&format!("(struct {}", info.name));
+                for k in info.fields.keys() {
+                    o.push(' ');
+                    o.push_str(k);
+                }
+                o.push(')');
+            }
+        }
+    }
+    o
+}
+
+impl Context {
+    /// Copy of the compiled program, the compiler tables and the machine state.
+    pub fn verif_c09_bytecode(&self) -> InterpreterParts {
+        self.interpreter.verif_c09_parts()
+    }
+
+    /// The typed statements the bytecode compiler would receive for `code`, as S-expressions.
+    /// Runs resolver, prefix transformer and type checker on a clone; `self` is not changed.
+    /// `Err(stage: message)` if one of these stages rejects the input.
+    pub fn verif_c09_typed_dump(&self, code: &str) -> Result<String, String> {
+        let mut c = self.clone();
+        let statements = c
+            .resolver
+            .resolve(code, CodeSource::Text)
+            .map_err(|e| format!("resolver: {e}"))?;
+        let transformed = c
+            .prefix_transformer
+            .transform(statements)
+            .map_err(|e| format!("name-resolution: {e}"))?;
+        let typed = c
+            .typechecker
+            .check(&transformed)
+            .map_err(|e| format!("typecheck: {e}"))?;
+        Ok(dump_statements(&typed))
+    }
+}
